@@ -358,8 +358,26 @@ class Application(MutableMapping[str | AppKey[Any], Any]):
         if self.on_cleanup.frozen:
             await self.on_cleanup.send(self)
         else:
-            # If an exception occurs in startup, ensure cleanup contexts are completed.
+            # If an exception occurs in startup, ensure cleanup contexts are completed,
+            # including those of sub-applications that had already been started.
+            await self._cleanup_started_contexts()
+
+    async def _cleanup_started_contexts(self) -> None:
+        errors: list[BaseException] = []
+        try:
             await self._cleanup_ctx._on_cleanup(self)
+        except (Exception, asyncio.CancelledError) as exc:
+            errors.append(exc)
+        for subapp in self._subapps:
+            try:
+                await subapp._cleanup_started_contexts()
+            except (Exception, asyncio.CancelledError) as exc:
+                errors.append(exc)
+        if errors:
+            if len(errors) == 1:
+                raise errors[0]
+            else:
+                raise CleanupError("Multiple errors on cleanup stage", errors)
 
     def _prepare_middleware(self) -> Iterator[Middleware]:
         yield from reversed(self._middlewares)
